@@ -5,10 +5,14 @@ round trip is judged by TLC (Codec!Judge with the exact clauses: identifier, met
 types, unit labels, material properties, every data cell and branch mark, model name / parameters /
 ranges / rmse / predictions, document fixpoint, file document = string document).
 See harness/codec_driver.py."""
-from ..codec_driver import run_codec
+from ..codec_driver import run_codec, replay_file
 
 PID = "C06"
 
 
 def main(tier, seed):
     return run_codec(PID, ["json"], tier, seed)
+
+
+def replay(path):
+    return replay_file(PID, path)
